@@ -270,7 +270,10 @@ Programs == <<
   P("aslist.set+choice",            <<E("aslist.set", "elems"), Choice(11)>>),
   P("trace.set",                    <<E("trace.set", "elems"), Abbrev(2)>>),
   P("trace.map",                    <<E("trace.map", "entries"), Abbrev(2)>>),
-  P("trace.set.all",                <<E("trace.set", "elems")>>)
+  P("trace.set.all",                <<E("trace.set", "elems")>>),
+  \* round 4: the members that are complete in the 50-character excerpt of a LARGE argument
+  P("trace.set.head",               <<E("trace.set", "elems"), Take(3)>>),
+  P("trace.map.head",               <<E("trace.map", "entries"), Take(3)>>)
 >>
 
 ProgIdx(id) == CHOOSE i \in 1..Len(Programs) : Programs[i].id = id
